@@ -13,10 +13,11 @@ variable {K : Type} [Field K]
 set_option linter.unusedSectionVars false
 set_option linter.unusedVariables false
 set_option linter.unusedSimpArgs false
+set_option maxHeartbeats 1000000
 
 /-- unfold generated code and specification down to field expressions -/
 macro "c05_unfold" : tactic =>
-  `(tactic| simp only [gen_simp, had, dkAct, iso, M2, apply6, apply4, apply3, ladd,
+  `(tactic| simp only [gen_simp, had, dkAct, iso, M2, apply6, apply4, apply3, ladd, lsmul, tens6, tens4, eigD, eigX, DK3, DK2,
       M3.mandel3, M3.mandel2, M3.mandel1, M3.ofMandel, M3.sym, M3.diag, M3.mul_def, M3.mul, M3.one_def, M3.one,
       M3.add_def, M3.add, M3.sub_def, M3.sub, M3.smul_def, M3.smul, M3.transpose, M3.outer, M3.trace, M3.det,
       M3.frob, M3.mk.injEq, List.cons.injEq, and_true, true_and])
@@ -113,6 +114,24 @@ theorem dkAct_eq_eigentensors
         + (t12 * quad (M3.sym h00 h11 h22 h01 h02 h12) m01 m11 m21 m02 m12 m22)
           • (M3.outer m01 m11 m21 m02 m12 m22 + M3.outer m02 m12 m22 m01 m11 m21) := by
   simp only [quad]; m3_ring
+
+/-- the table `DK3` applied to the storage of a symmetric `H` is the storage of the Daleckii–Krein action -/
+theorem DK3_apply {c : K} (hc : c * c = 2)
+    (m00 m01 m02 m10 m11 m12 m20 m21 m22 t00 t11 t22 t01 t02 t12 h00 h11 h22 h01 h02 h12 : K) :
+    apply6 (DK3 c ⟨m00, m01, m02, m10, m11, m12, m20, m21, m22⟩ (M3.sym t00 t11 t22 t01 t02 t12))
+        (M3.mandel3 c (M3.sym h00 h11 h22 h01 h02 h12))
+      = M3.mandel3 c (dkAct ⟨m00, m01, m02, m10, m11, m12, m20, m21, m22⟩ (M3.sym t00 t11 t22 t01 t02 t12)
+          (M3.sym h00 h11 h22 h01 h02 h12)) := by
+  c05_unfold
+  (repeat' apply And.intro)
+  all_goals (ring_nf; c_powers hc; ring1)
+
+theorem DK2_apply {c : K} (hc : c * c = 2) (m00 m01 m10 m11 t00 t11 t22 t01 t02 t12 h00 h11 h22 h01 : K) :
+    apply4 (DK2 c m00 m01 m10 m11 t00 t11 t22 t01) (M3.mandel2 c (M3.sym h00 h11 h22 h01 0 0))
+      = M3.mandel2 c (dkAct (M2 m00 m01 m10 m11) (M3.sym t00 t11 t22 t01 t02 t12) (M3.sym h00 h11 h22 h01 0 0)) := by
+  c05_unfold
+  (repeat' apply And.intro)
+  all_goals (ring_nf; (try c_powers hc); (try ring1))
 
 /-- a symmetric matrix is determined by its Frobenius products with symmetric matrices -/
 theorem frob_sym_ext (h2 : (2 : K) ≠ 0) (a00 a11 a22 a01 a02 a12 b00 b11 b22 b01 b02 b12 : K)
